@@ -39,6 +39,7 @@ pub mod util {
     {
         assert(((x << 1u8) | b) == x * 2 + b) by (bit_vector) requires x < 128, b <= 1;
     }
+    //@@INCLUDE u_format/dump_spec.rs
     //@@ITEMS util
     }
 }
